@@ -1,0 +1,52 @@
+//go:build verif
+
+package updown
+
+import (
+	"io"
+)
+
+// VerifUDL is what the CSV readers keep of one row of `updown list` output.
+type VerifUDL struct {
+	ID       string
+	Snps     []string
+	SnpPos   []int
+	Ambs     []int
+	AmbCount int
+}
+
+func verifUDL(l updownLine) VerifUDL {
+	return VerifUDL{ID: l.id, Snps: l.snps, SnpPos: l.snpsPos, Ambs: l.ambs, AmbCount: l.ambCount}
+}
+
+// VerifReadCSVList exposes readCSVToUDLList (the --query csv reader) to the verification harness.
+func VerifReadCSVList(in io.Reader) ([]VerifUDL, error) {
+	ls, err := readCSVToUDLList(in)
+	if err != nil {
+		return nil, err
+	}
+	out := make([]VerifUDL, len(ls))
+	for i, l := range ls {
+		out[i] = verifUDL(l)
+	}
+	return out, nil
+}
+
+// VerifReadCSVChan exposes readCSVToUDLChan (the --target csv reader) to the verification harness.
+func VerifReadCSVChan(in io.Reader) ([]VerifUDL, error) {
+	cudL := make(chan updownLine)
+	cErr := make(chan error)
+	cDone := make(chan bool)
+	go readCSVToUDLChan(in, cudL, cErr, cDone)
+	out := make([]VerifUDL, 0)
+	for {
+		select {
+		case l := <-cudL:
+			out = append(out, verifUDL(l))
+		case err := <-cErr:
+			return nil, err
+		case <-cDone:
+			return out, nil
+		}
+	}
+}
